@@ -24,7 +24,20 @@ HARNESSES = [dict(name="allocator", pkg="./pkg/allocator/", test="TestVerifC01",
 # Every recorded finding of C01 is fixed in /repo (d00d766, c2652db, 85029df, a1ebdc8, 1de6b72): the correspondence
 # compares with the repaired model only, so a regression to any of them is reported as a VIOLATION.  (The Coq model
 # keeps the historical variants for the `_refuted` theorems.)
-VARIANTS = ["repaired"]
+# One finding is open: NewPrefixAllocator accepts an IPv4 network for a PD pool (variant "v4pd", signature below).
+VARIANTS = ["repaired", "v4pd"]
+
+
+def signature(case, impl, models):
+    """the only recorded open finding: a PD pool configured on an IPv4 network"""
+    head, ops = split_case(case)
+    if kind(head) == "pd" and head[1].startswith("4:"):
+        return "prefix.NewPrefixAllocator:ipv4-network-accepted"
+    if kind(head) in ("reg", "res"):
+        for pf, fam, pgw, pools in parse_reg(head):
+            if fam == "d" and any(q["net"].startswith("4:") for q in pools):
+                return "prefix.NewPrefixAllocator:ipv4-network-accepted"
+    return "unexplained"
 
 
 def route(case):
@@ -50,10 +63,11 @@ RULE = ("pool: v4/v6 ranges of 1-40 addresses at carry boundaries (octet, 2^32 n
         "pool, reserve/release by IP, direction. Allocate answers are checked for admissibility by the model; "
         "everything else is compared exactly. Non-trivial: a history with at least one successful allocation "
         "and at least one of {exhaustion, reservation conflict, release of a held address}.")
-TRUSTED = ["configuration strings -> pool geometry glue (default range from the network, gateway/exclude "
-           "expansion) is in the OCaml driver, not in Coq",
+TRUSTED = ["configuration strings are abstracted to {empty, unparseable, address} tokens by the harness and the OCaml "
+           "driver (netip.ParseAddr / netaddr.ParseIPPrefix are not modelled); the geometry computed from them "
+           "(default range, gateway and exclude expansion) is spec_geom in Coq",
            "pool/profile/VRF names are modelled as numbers; names containing '/' are outside the model"]
-ASSUMPTIONS = ["PD pools: delegated bits small enough to build the free list; the PD network is an IPv6 prefix",
+ASSUMPTIONS = ["PD pools: delegated bits small enough to build the free list",
                "each allocator call is atomic (the mutex); concurrency is not modelled here"]
 
 M32 = 0xffff00000000
@@ -161,6 +175,16 @@ PD_BAD_SHAPES = [(64, 56), (0, 64), (10, 80), (64, 128)]
 def pd_base(net, nbits):
     m = 1 << (128 - nbits)
     return (net // m) * m
+
+
+def gen_pd_v4(rng):
+    """a PD pool configured on an IPv4 network (plen around the IPv4 BitLen bound of NewPrefixAllocator)"""
+    nb, pl = rng.choice([(8, 16), (24, 26), (24, 32), (24, 33), (8, 64), (30, 32), (32, 32), (16, 24), (0, 4)])
+    net = rng.choice([0x0a000000, 0x0a000005, 0xc0a80100, 0xffffffff])
+    base16 = M32 + ((net >> (32 - nb)) << (32 - nb) if nb else 0)
+    p1 = "6:%d/%d:128" % (base16, pl)
+    p2 = "6:%d/%d:128" % (base16 + (1 << (128 - pl)) if pl <= 128 else base16, pl)
+    return "pd 4:%d %d %d ; V A1 A2 A3 V C%s R4,%s L%s C4:%d/%d:32 R1,%s A1 A2 V" % (net, nb, pl, p1, p2, p1, net, min(pl, 32), p1)
 
 
 def gen_pd(rng, maxops=50):
@@ -302,6 +326,14 @@ def gen_registry(rng, resolve=False, maxops=45):
         if rng.random() < 0.3:
             net |= rng.getrandbits(20)          # unmasked network
         bad = rng.random() < 0.06
+        odd = rng.random()
+        if odd < 0.04:        # prefix length above the address length: no allocator since 1de6b72
+            keys["d"].append(("%d/%d" % (pf, name), pd_base(net, 126), 126, 129))
+            return [str(name), "0", str(rng.choice([0, 0, 1, 1, 2])), "%s/%d" % (atok(6, net), rng.choice([126, 128])), str(rng.choice([129, 130, 190])), "-", "-", "0"]
+        if odd < 0.08:        # an IPv4 network for a PD pool
+            v4n, v4b, v4p = rng.choice([(0x0a000000, 24, 26), (0x0a000000, 30, 32), (0x0a000000, 24, 33), (0xc0a80000, 16, 18)])
+            keys["d"].append(("%d/%d" % (pf, name), M32 + v4n, 96 + v4b, 96 + v4p))
+            return [str(name), "0", str(rng.choice([0, 0, 1, 1, 2])), "%s/%d" % (atok(4, v4n), v4b), str(v4p), "-", "-", "0"]
         nets = "bad" if bad and rng.random() < 0.5 else "%s/%d" % (atok(6, net), nb)
         if bad and nets != "bad":
             pl = rng.choice([nb - 1 if nb else 200, nb + 64]) if nb + 64 <= 128 else max(nb - 1, 0)
@@ -561,6 +593,8 @@ def gen_cases(rng, tier, budget):
         cases.append(gen_pool(rng))
     for _ in range(n * 25 // 100):
         cases.append(gen_pd(rng))
+    for _ in range(6 if tier == "quick" else 60):
+        cases.append(gen_pd_v4(rng))
     for _ in range(n * 25 // 100):
         cases.append(gen_registry(rng))
     for _ in range(n * 10 // 100):
@@ -798,6 +832,68 @@ def monitor_reg(head, ops, outs):
     return None
 
 
+def res_ranges(head):
+    """(fam, key) -> (lo, hi) of the allocator Contains() answers for (excludes do not matter to Contains); res
+    cases only (pools of one family are disjoint there, so a value identifies its pool)"""
+    out = {}
+    for pf, fam, pgw, pools in parse_reg(head):
+        for q in pools:
+            key = (fam, "%s/%s" % (pf, q["name"]))
+            if key in out or fam == "d" or q["net"] == "bad" or "junk" in (q["lo"], q["hi"]):
+                continue
+            nb, bits = q["net"].split("/")
+            width = 32 if fam == "4" else 128
+            m = 1 << (width - int(bits))
+            first = (parse_addr(nb)[1] // m) * m
+            f = 4 if fam == "4" else 6
+            lo = (f, first + 1) if q["lo"] == "-" else parse_addr(q["lo"])
+            hi = (f, first + m - 2) if q["hi"] == "-" else parse_addr(q["hi"])
+            out[key] = (lo, hi)
+    return out
+
+
+def monitor_res(head, ops, outs):
+    """Ownership ledger over ResolveV4/ResolveV6 answers (IPv4 and IA_NA addresses): an address of a managed
+    pool must not be offered to a session while the ledger says another session holds it."""
+    ranges = res_ranges(head)
+
+    def managed(fam, a):
+        return any(k[0] == fam and lo[0] == a[0] and lo[1] <= a[1] <= hi[1] for k, (lo, hi) in ranges.items())
+    held = {"4": {}, "n": {}}
+    for i, (op, o) in enumerate(zip(ops, outs)):
+        if o.startswith("INADMISSIBLE") or o in ("panic", "hang"):
+            return None
+        c = op[0]
+        got = []            # (fam, addr, sid)
+        if c in "Yy" and o.startswith("r"):
+            sid = op[1:].split(",")[0]
+            got.append(("4", parse_addr(o[1:].split("@")[0]), sid))
+        elif c in "Zz" and o.startswith("ok;"):
+            sid = op[1:].split(",")[0]
+            fl = dict(x.split("=", 1) for x in o.split(";")[1:] if "=" in x)
+            if fl.get("na", "-") != "-":
+                got.append(("n", parse_addr(fl["na"]), sid))
+        elif c == "A" and op[1] in "4n" and o.startswith("a"):
+            got.append((op[1], parse_addr(o.split("=", 1)[1]), op[2:].split(",")[0]))
+        elif c in "LI" and op[1] in "4n":
+            a = parse_addr(op[2:].split(",")[-1])
+            if a is not None:
+                if c == "I":
+                    held[op[1]].pop(a, None)
+                else:
+                    r = ranges.get((op[1], op[2:].split(",")[0]))
+                    if r and r[0][0] == a[0] and r[0][1] <= a[1] <= r[1][1]:
+                        held[op[1]].pop(a, None)
+        for fam, a, sid in got:
+            if a is None or not managed(fam, a):
+                continue
+            if held[fam].get(a, sid) != sid:
+                return "op %d %s: %s address %s is offered to session %s while session %s holds it" % (
+                    i, op, "IPv4" if fam == "4" else "IA_NA", o[:60], sid, held[fam][a])
+            held[fam][a] = sid
+    return None
+
+
 def monitor(case, impl):
     try:
         head, ops = split_case(case)
@@ -810,6 +906,12 @@ def monitor(case, impl):
         if kind(head) == "pd":
             if impl.strip() == "nilalloc":
                 return None
+            if head[1].startswith("4:"):
+                got = [o for op, o in zip(ops, outs) if op[0] == "A" and o.startswith("p")]
+                if got:
+                    return "a PD pool configured on the IPv4 network %s/%s delegated %d prefixes (%s ...) computed on the mapped address" % (
+                        head[1], head[2], len(got), got[-1][1:40])
+                return None
             if int(head[3]) > 128:
                 # nothing of length > 128 can be delegated: any answer is a violation (same address, nil mask)
                 got = [o for op, o in zip(ops, outs) if op[0] == "A" and o.startswith("p")]
@@ -817,6 +919,10 @@ def monitor(case, impl):
                     return "a PD pool with prefix length %s delegated %s to %d sessions" % (head[3], got[0][1:], len(got))
                 return None
             return monitor_pd(head, ops, outs)
+        if kind(head) == "res":
+            v = monitor_res(head, ops, outs[:len(ops)])
+            if v:
+                return v
         return monitor_reg(head, ops, outs[:len(ops)])
     except Exception as e:  # a monitor bug must not hide a mismatch
         return None
@@ -840,7 +946,16 @@ def classify(case, impl, model):
     if k < len(ops) and op[0] in "RLPICV" and kind(head) in ("pool", "pd"):
         return "P", "op %d %s: returned %s, the proved model says %s" % (k, op, a, m)
     if k < len(ops) and op[0] in "YZyz":
-        return "P", "op %d %s: Resolve returned %s, the proved model says %s" % (k, op, a, m)
+        # what was offered (nil / address / prefix) is property-level; pool names and context fields alone are not
+        # (the VRF/order monitor above has already accepted the pool)
+        def offered(t):
+            if t[0] == "r":
+                return t[1:].split("@")[0]
+            fl = dict(x.split("=", 1) for x in t.split(";")[1:] if "=" in x)
+            return (t.split(";")[0], fl.get("na"), fl.get("pd"))
+        if offered(a) != offered(m):
+            return "P", "op %d %s: Resolve offered %s, the proved model says %s" % (k, op, a, m)
+        return "G", "op %d %s: same offer, pool-name / context fields differ: impl=%s model=%s" % (k, op, a, m)
     if kind(head) == "reg" and (k >= len(ops) or op[0] == "V") and "=" in a + m or (k < len(ops) and op[0] == "V"):
         return "P", "%s: %s free, the proved model says %s (a lease was dropped or kept in the wrong pool)" % (
             ("op %d %s" % (k, op)) if k < len(ops) else "end of history", a, m)
